@@ -206,13 +206,15 @@ def _post(eng, c, fi, outcome, ptypes, param_refs, pre_vals):
             cond = c.raises[allowed]
             if cond is not None:
                 eng.oblige("raises", allowed, eng.eval_spec(cond, {**pre_vals, "old": old}, c), r.line)
-        # postconditions of this exceptional exit:  raised_<Exc>(old, <params>, exc)
-        if cls is not None:
-            from .stmt import BUILTIN_EXC_MRO as _MRO
-            for m_ in _MRO.get(cls, [cls]):
-                for cname, efn in c.raised.get(m_, {}).items():
-                    f = eng.eval_spec(efn, {**post_vals, "old": old, "exc": r.exc}, c)
-                    eng.oblige("raised", cname, f, r.line)
+        # postconditions of this exceptional exit:  raised_<Exc>(old, <params>, exc); raised_any_* for every exit
+        from .stmt import BUILTIN_EXC_MRO as _MRO
+        for m_ in (list(_MRO.get(cls, [cls])) if cls is not None else []) + ["any"]:
+            for cname, efn in c.raised.get(m_, {}).items():
+                vals = {**post_vals, "old": old}
+                if "exc" in [a_.arg for a_ in efn.node.args.args]:
+                    vals["exc"] = r.exc
+                f = eng.eval_spec(efn, vals, c)
+                eng.oblige("raised", cname, f, r.line)
         # frame on exceptional exit too
         for p, ref in param_refs.items():
             if p not in c.modifies and p not in c.frame_exempt:
